@@ -3,6 +3,7 @@ import PytezosModel.Proofs.C19Expand
 `pxrOf`; (2) what the list of `DIP d {PAIR}` / `DIP d {UNPAIR}` items produced by `traverse_pxr_tree` computes
 (`Kp`, `Ku`); (3) that this is the reference meaning (`Spec.build`, `Spec.unbuild`) — the justification of the depth
 scheme; (4) the value-level reading of the reference meaning. -/
+set_option linter.unusedSimpArgs false
 namespace C19.Pair
 open Impl.Macros Generated.C19 Spec Sem C19.Dispatch C19.Expand
 
